@@ -2,6 +2,7 @@
 from engine import *
 import provenance
 import guards
+import writes
 import mutations
 import re
 
@@ -546,3 +547,4 @@ def r15n(F):
 	return out
 
 RULES.append(('15.n', 'a fresh ephemeral key per connection: get_ephemeral_key hashes the engine into which peer_counter.next() was fed (data-flow rule)', r15n))
+RULES.append(('15.W', 'field assignments: every reviewed (function, Type.field) direct assignment is still made - state that a path no longer updates, or updates only conditionally (get_or_insert for an overwrite); generalises NN.R (rules/writes.py)', lambda F: writes.for_property(F, 'C15', '15.W')))
